@@ -127,16 +127,16 @@ theorem apply_gen {C : Coll σ} (ok : CollOK C) (b1 : BM σ) (k : Nat) (s' : σ)
 /-! ### Container-level facts used by the import closures -/
 
 theorem unionAsc_nil_left {b : List Nat} (hb : Asc b) : unionAsc [] b = b :=
-  asc_ext (asc_unionAsc asc_nil) hb (fun v => by rw [mem_unionAsc]; simp)
+  asc_ext (asc_unionAsc asc_nil hb) hb (fun v => by rw [mem_unionAsc]; simp)
 
 theorem cellOK_unionAsc {a b : Cell} (ha : CellOK a) (hb : CellOK b) : CellOK (unionAsc a b) := by
-  refine ⟨asc_unionAsc ha.1, ?_⟩
+  refine ⟨asc_unionAsc ha.1 hb.1, ?_⟩
   intro x hx; rcases mem_unionAsc.mp hx with h | h
   · exact ha.2 x h
   · exact hb.2 x h
 
 theorem cellOK_diffAsc {a b : Cell} (ha : CellOK a) : CellOK (diffAsc a b) :=
-  ⟨asc_diffAsc ha.1, fun x hx => ha.2 x (mem_diffAsc.mp hx).1⟩
+  ⟨asc_diffAsc ha.1, fun x hx => ha.2 x ((diffAsc_sublist a b).subset hx)⟩
 
 theorem asc_nodup {l : List Nat} (h : Asc l) : l.Nodup := by
   unfold Asc at h
@@ -149,8 +149,8 @@ theorem cell_length_le {a : Cell} (ha : CellOK a) : a.length ≤ W := by
 /-- Union into a full container changes nothing. -/
 theorem unionAsc_full {a b : Cell} (ha : CellOK a) (hb : CellOK b) (hf : a.length = W) :
     unionAsc a b = a := by
-  apply unionAsc_eq_of_length ha.1
-  have h1 := length_le_unionAsc (b := b) ha.1
+  apply unionAsc_eq_of_length ha.1 hb.1
+  have h1 := length_le_unionAsc (b := b) ha.1 hb.1
   have h2 := cell_length_le (cellOK_unionAsc ha hb)
   omega
 
@@ -163,20 +163,23 @@ theorem filter_not_mem_full {a b : Cell} (ha : CellOK a) (hb : CellOK b) (hf : a
 
 theorem diffAsc_full {a b : Cell} (ha : CellOK a) (hb : CellOK b) (hf : b.length = W) :
     diffAsc a b = [] := by
-  unfold diffAsc
+  rw [diffAsc_eq_filter ha.1 hb.1]
+  unfold diffFilter
   rw [filter_eq_nil_iff]
   intro x hx
   have := mem_of_full hb.1 hb.2 hf (ha.2 x hx)
   simp [this]
 
-theorem length_diffAsc (a b : Cell) :
+theorem length_diffAsc {a b : Cell} (ha : Asc a) (hb : Asc b) :
     (diffAsc a b).length + (a.filter (fun x => b.contains x)).length = a.length := by
-  unfold diffAsc
+  rw [diffAsc_eq_filter ha hb]
+  unfold diffFilter
+  clear ha
   induction a with
   | nil => rfl
   | cons x t ih =>
     rw [filter_cons, filter_cons]
-    cases hb : b.contains x
+    cases hb' : b.contains x
     · simp only [Bool.not_false, ↓reduceIte, length_cons, Bool.false_eq_true]; omega
     · simp only [Bool.not_true, Bool.false_eq_true, ↓reduceIte, length_cons]; omega
 
